@@ -15,7 +15,7 @@ import (
 )
 
 func checkC11(c *Ctx) {
-	c.explainf("C11 decides: every piece of text that the JSON encoder concatenates into its output is a string constant of the encoder, the result of the JSON string quoter, the result of a recursive encoder call, or the printed form of a scalar whose printer is JSON-compatible; strings, symbols, hash keys, key-order entries and the type name go through the quoter, which is encoding/json; nil is written as null; the reserved keys written by the encoders are exactly the ones the decoders look for; decoders walk maps sorted and restore the order from the key list when one was found; both codec handles are canonical; msgpack is produced from that JSON. It does not decide value equality after the round trip or number formatting.")
+	c.explainf("C11 decides: every piece of text that the JSON encoder concatenates into its output is a string constant of the encoder, the result of the JSON string quoter, the result of a recursive encoder call, or the printed form of a scalar whose printer is JSON-compatible; strings, symbols, hash keys, key-order entries and the type name go through the quoter, which is encoding/json; nil is written as null; the reserved keys written by the encoders are exactly the ones the decoders look for; decoders walk maps sorted and restore the order from the key list when one was found; both codec handles are canonical; msgpack is produced from that JSON. User keys are compared with the reserved names before they are written (C11-RESV), number types without an encoder arm print digits only, and no hash is given the order list or buckets of another hash (C11-SHARE). It does not decide value equality after the round trip or number formatting.")
 	// the encoders walk the order list: it has to list the map's keys, which a shared order list does not
 	c.checkHashStorageNotShared("C11-SHARE")
 	enc := []string{"SexpToJson", "SexpHash.jsonHashHelper", "SexpArray.jsonArrayHelper"}
